@@ -357,7 +357,7 @@ class RouteHint:
                 out.append((None, par, k))
             elif o[i] == 0:
                 out.append((t, par, k))
-                if k == 0 and len(cfg["sels"]) > 1:
+                if k == 0 and len(cfg["sels"]) + len(cfg["badsels"]) > 1:
                     hold_sel = True
             elif t[2] == 1:
                 out.append((None, (par + 1) % cfg["npar"], 0))
@@ -428,6 +428,11 @@ def frame_configs(tier):
     for dw, (hl, f), swap in short:
         for cls in ("Packetizer", "Depacketizer"):
             L.append(_frame(cls, dw, hl, f, swap, minlen=1, maxlen=2, bubbles=0, junk=0))
+    # after a recorded finding the remaining clauses are explored further (thorough tier) for the smallest geometry
+    # of every class only
+    for spec in L:
+        if (spec["dw"], spec["hl"]) in ((16, 3), (16, 1), (8, 2)):
+            spec["followup"] = True
     return L
 
 
@@ -454,11 +459,14 @@ def fifo_configs(tier):
         add(depth=3, maxlen=3, credit=3, env="credit")
         add(depth=3, maxlen=2, credit=3, pdepth=1, env="credit")
         add(depth=3, maxlen=2, credit=3, buffered=True, env="credit")
-        add(depth=4, maxlen=3, credit=4, npar=1, pmax=1, env="credit")
         add(depth=4, maxlen=3, rdy1=1, npar=1, env="rdy1")
         add(depth=3, maxlen=3, env="full")
         add(depth=3, maxlen=2, pdepth=1, env="full")
         add(depth=4, maxlen=4, npar=1, env="full")
+    # after a recorded finding the remaining clauses are explored further (thorough tier) for the smallest DUT only
+    for spec in L:
+        if spec.get("env") == "full" and spec["depth"] == 2 and not spec.get("buffered"):
+            spec["followup"] = True
     return L
 
 
@@ -478,8 +486,7 @@ def route_configs(tier):
     add("Dispatcher", 1, 3, maxlen=2, nbad=1, npar=1)
     if tier == "thorough":
         add("Arbiter", 3, 1, maxlen=2)
-        add("Arbiter", 3, 1, maxlen=3, npar=1, bubbles=0)
-        add("Arbiter", 4, 1, maxlen=2, npar=1, bubbles=0)
+        add("Arbiter", 4, 1, maxlen=1, npar=1)
         add("Dispatcher", 1, 3, maxlen=3, one_hot=True, nbad=2)
         add("Dispatcher", 1, 4, maxlen=2, npar=1)
         add("Dispatcher", 1, 1, maxlen=2, one_hot=True, nbad=1)
